@@ -211,9 +211,9 @@ def places_in_stmt(s):
     if s['k'] == 'assign':
         out.append(('w', s['place']))
         rv = s['rv']
-        for key in ('place',):
-            if key in rv:
-                out.append(('r', rv[key]))
+        if 'place' in rv:
+            # a mutable borrow / raw mut pointer can be written through: mode 'm'
+            out.append(('m' if rv.get('mut') and rv['k'] in ('ref', 'rawptr') else 'r', rv['place']))
         for key in ('op', 'a', 'b'):
             if key in rv and isinstance(rv[key], dict):
                 p = op_place(rv[key])
